@@ -314,6 +314,51 @@ theorem spec_forwarded (env : Nat → Sig) (ds : List (Cls × PDict)) (fn : WFn)
   | nil => rfl
   | cons d ds ih => simp only [List.foldl_cons]; rw [ih]; rfl
 
+/-! ### the specification survives the memo fields
+
+`spec_forwarded` above is about the chain; the mechanism that could break it is the memo each wrapper object
+keeps (`function_fullargspec`), which is filled at one moment and read later, after the chain below or above
+it has been rebuilt.  Operations on the memos of a chain: a specification request at any depth (`fillMemos` on a
+suffix), a constructor (`mkMemos`: new empty memo on top, any objects below cut out).
+`MemoOk base ms` (WrapLemmas): every filled memo holds the plain function's specification — the invariant. -/
+
+/-- the operations on the memo fields of a chain -/
+inductive MemoOp where
+  | request (depth : Nat)            -- `getargspec` of the object `depth` levels below the top
+  | construct (keep : List Bool)     -- a constructor applied on top (objects with `keep = false` are cut out)
+
+def MemoOp.run (base : Sig) : MemoOp → Memos → Memos
+  | .request d, ms => ms.take d ++ fillMemos base (ms.drop d)
+  | .construct keep, ms => mkMemos keep ms
+
+/-- **The wrapper reports f's argument specification, whatever was requested and re-wrapped before**: after any
+sequence of constructions and specification requests (at any depth, in any order) on a plain function, the
+reported specification is the plain function's — a stale memo cannot exist. -/
+theorem spec_forwarded_memo (base : Sig) (ops : List MemoOp) :
+    specWalk base (ops.foldl (fun ms op => op.run base ms) []) = base := by
+  apply specWalk_of_ok
+  suffices ∀ ms, MemoOk base ms → MemoOk base (ops.foldl (fun ms op => op.run base ms) ms) from
+    this [] (by intro s hs; simp at hs)
+  induction ops with
+  | nil => intro ms h; exact h
+  | cons op ops ih =>
+    intro ms h
+    simp only [List.foldl_cons]
+    apply ih
+    cases op with
+    | request d =>
+      simp only [MemoOp.run]
+      exact fill_below_ok base _ _ (by rw [List.take_append_drop]; exact h)
+    | construct keep => exact mkMemos_ok base keep ms h
+
+/-- non-vacuity: wrap, request the specification of the inner object, re-wrap cutting it out, wrap again -/
+example :
+    let base : Sig := { params := ["a"], defaults := [], varargs := none, varkw := none }
+    let ops := [MemoOp.construct [], .construct [true], .request 1, .construct [true, false], .request 0]
+    (ops.foldl (fun ms op => op.run base ms) []).length = 2 ∧
+    specWalk base (ops.foldl (fun ms op => op.run base ms) []) = base := by
+  refine ⟨by decide, spec_forwarded_memo _ _⟩
+
 /-! ## cache
 
 `callKey c` is the cache key of a call "as passed" (`_prehash((args, kwargs))` up to python's `==`): two calls
